@@ -347,13 +347,14 @@ void RadioTap::send(PacketSender& sender, const NetworkInterface& iface) {
 #endif
 
 bool RadioTap::matches_response(const uint8_t* ptr, uint32_t total_sz) const {
-    if (sizeof(header_) < total_sz) {
+    if (total_sz < sizeof(header_)) {
         return false;
     }
     const radiotap_header* radio_ptr = (const radiotap_header*)ptr;
-    if (radio_ptr->it_len <= total_sz) {
-        ptr += radio_ptr->it_len;
-        total_sz -= radio_ptr->it_len;
+    const uint32_t radiotap_len = Endian::le_to_host(radio_ptr->it_len);
+    if (radiotap_len <= total_sz) {
+        ptr += radiotap_len;
+        total_sz -= radiotap_len;
         return inner_pdu() ? inner_pdu()->matches_response(ptr, total_sz) : true;
     }
     return false;
